@@ -17,6 +17,21 @@ from pathlib import Path
 from pydjinni.parser.base_models import TypeReference
 
 
+_STRING_LITERAL_ESCAPES = {
+    '\\': r'\\', '"': r'\"', '\n': r'\n', '\r': r'\r', '\v': r'\v', '\f': r'\f',
+    '\x1c': r'\034', '\x1d': r'\035', '\x1e': r'\036', '\x85': r'\205', '\u2028': r'\u2028', '\u2029': r'\u2029'
+}
+
+
+def string_literal(text: str) -> str:
+    """
+    `text` as a C, C++, Objective-C or C++/CLI string literal. Besides the quote and the backslash, every character
+    that ends a line (for a compiler, or for `str.splitlines` which the `indent` filter uses) is written as an escape
+    sequence, so that the literal always stays on one line.
+    """
+    return '"' + ''.join(_STRING_LITERAL_ESCAPES.get(c, c) for c in text) + '"'
+
+
 def quote(header: Path):
     return str(header) if str(header).startswith("<") and str(header).endswith(">") else f'"{header.as_posix()}"'
 
